@@ -61,6 +61,15 @@ def edit? : Sexp → Option Edit
 
 def bool (b : Bool) : Sexp := .atom (if b then "true" else "false")
 
+/-- `(binds (key id) …)` -/
+def binds? : Sexp → Option Binds
+  | .list (.atom "binds" :: ps) => ps.mapM fun (x : Sexp) => match x with
+    | Sexp.list [k, .atom n] => do pure ((← key? k), (← n.toNat?))
+    | _ => none
+  | _ => none
+
+def bindsSexp (b : Binds) : Sexp := .list (.atom "binds" :: b.map fun p => .list [keySexp p.1, .atom (toString p.2)])
+
 end C17D
 
 /-- line-protocol handler for C17 -/
@@ -88,6 +97,11 @@ def handleC17 (cmd : String) (args : List Sexp) : Option Sexp :=
       match r with
       | .error e => pure (C02D.errSexp e)
       | .ok r => pure (tagged "ok" [C17D.stSexp r])
+  | "c17.bind", [.atom name, c, .atom locked, out, y] => do
+      let c ← C17D.call? c; let out ← C17D.binds? out; let y ← C17D.binds? y
+      match exitBinds name c (locked == "true") out y with
+      | .error e => pure (C02D.errSexp e)
+      | .ok r => pure (tagged "ok" [C17D.bindsSexp r])
   | _, _ => none
 
 end TdVerif.Drive
